@@ -10,6 +10,7 @@ import PolyVerif.Lemmas.MeshFrame
 import PolyVerif.Lemmas.MeshCorners2
 import PolyVerif.Lemmas.MeshAppend
 import PolyVerif.Lemmas.MeshWeld
+import PolyVerif.Lemmas.MeshAllRef
 import PolyVerif.Lemmas.MeshTransformsWF
 
 namespace PolyVerif.C03
@@ -41,6 +42,24 @@ example : sample.unweld.indices = [0, 1, 2, 3, 4, 5] ∧ sample.unweld.attrLen =
 theorem removeUnreferenced_spec [DecidableEq α] {m : MeshVal α} (h : WF m) :
     RemoveUnrefSpec m m.removeUnreferenced :=
   ⟨⟨rfl, rfl⟩, removeUnreferenced_corners h⟩
+
+/-- … and afterwards every vertex is referenced by some index. -/
+theorem removeUnreferenced_allReferenced [DecidableEq α] {m : MeshVal α} (h : WF m) :
+    AllReferenced m.removeUnreferenced := MeshVal.removeUnreferenced_allReferenced h
+
+/-- the attribute filters end with the same clean-up: every vertex of the result is referenced -/
+theorem filterAttr_allReferenced [DecidableEq α] {m m' : MeshVal α} (h : WF m) {k : AttrKey} {p : α → Bool}
+    (hm : m.filterAttr k p = some m') : AllReferenced m' := by
+  unfold filterAttr at hm
+  split at hm
+  · rename_i ht
+    split at hm
+    · cases hm
+    · cases hm
+      apply MeshVal.removeUnreferenced_allReferenced
+      refine MeshVal.setIndices_wf h _ (fun i hi => h.2.1 i (List.mem_filter.mp hi).1) ?_
+      rw [ht]; trivial
+  · cases hm
 
 example : sample.removeUnreferenced.attrLen = 4 := by decide
 
@@ -235,7 +254,7 @@ are `setAttr Normal (f positions)`. -/
 theorem setAttr_spec [DecidableEq α] (m : MeshVal α) (k : AttrKey) (data : List α) :
     FrameSpec k m (m.setAttr k data) ∧
     (m.setAttr k data).attr? k = (if data.isEmpty then none else some data) :=
-  ⟨⟨⟨rfl, rfl⟩, rfl, fun k' _ hne => setAttr_attr?_ne m data hne⟩, setAttr_attr?_self m k data⟩
+  ⟨⟨⟨rfl, rfl⟩, rfl, fun _ _ hne => setAttr_attr?_ne m data hne⟩, setAttr_attr?_self m k data⟩
 
 /-- a transform of attribute `k` by `f`: everything else untouched, and `k` is exactly `f` of the old array -/
 theorem modifyAttr_spec [DecidableEq α] {m m' : MeshVal α} {k : AttrKey} {f : List α → List α}
